@@ -95,6 +95,15 @@ def standard_lattice(seed, quick):
         {"model": "G2step"},
         {"model": "G2ba"},
         {"model": "G2ba", "kwargs": {"reparameterisations": {"a": "inversion", "b": "logit"}}},
+        {"model": "G2zeros"},
+        {"model": "G2zeros", "kwargs": {"analytic_priors": True}},
+        # every parameter with a uniform prime prior on a non-default target interval (the prime prior
+        # is then the only bound check in the flow proposal)
+        {"kwargs": {"reparameterisations": {"rescaletobounds": {"parameters": ["x0", "x1"], "prior": "uniform", "rescale_bounds": [0.0, 1.0]}}}},
+        {"model": "G2open", "kwargs": {"reparameterisations": {"rescaletobounds": {"parameters": ["x0", "x1"], "prior": "uniform", "rescale_bounds": [0.0, 1.0]}}}},
+        {"model": "G2edge", "kwargs": {"reparameterisations": {"rescaletobounds": {"parameters": ["x0", "x1"], "prior": "uniform", "rescale_bounds": [-2.0, 5.0]}}}},
+        # deprecated layout: training options inside flow_config (also resumed)
+        {"kwargs": {"flow_config": {"max_epochs": 5, "patience": 5, "batch_size": 100}, "training_config": None}, "resume": "every"},
         {"model": "G2edge"},
         {"model": "G2edge", "kwargs": {"reparameterisations": "null"}},
         {"model": "G2open"},
